@@ -53,22 +53,14 @@ def jobs(tier):
     out = []
     langs = ['java', 'kotlin'] if tier == 'quick' else U.LANGS
     units = ['gen_variable', 'gen_assignment', 'gen_new', 'gen_variable_decl', 'generate_expr', 'gen_field_access',
-             'gen_func_call', 'gen_lambda', 'gen_is_expr', 'gen_matching_func', 'gen_class_decl']
+             'gen_func_call', 'gen_lambda', 'gen_is_expr', 'gen_matching_func', 'gen_class_decl',
+             'gen_equality_expr', 'gen_logical_expr', 'gen_comparison_expr', 'gen_array_expr', 'gen_func_call_ref', 'gen_func_ref']
     for lang in langs:
         for unit in units:
-            nv = 1 if tier == 'quick' else 2
-            extra = dict(nvars=0, with_nested=False) if unit in ('generate_expr', 'gen_lambda', 'gen_matching_func', 'gen_class_decl') else (
-                dict(nvars=0 if tier == 'quick' else 1, with_nested=True,
-                     **(dict(sym_draws=3 if tier == 'quick' else 5) if unit == 'gen_func_call' else {}))
-                if unit in ('gen_func_call', 'gen_field_access')
-                else dict(nvars=nv))
-            extra.setdefault('sym_draws', 4 if tier == 'quick' else 6)
+            extra = U.unit_params(unit, tier)
             out.append(Job('%s-%s' % (unit, lang), U.harness, dict(lang=lang, unit=unit, aspect=ASPECT, **extra),
                            split_depth=6, functions=U.FUNCS[unit], stubs=U.STUBS, require_events=['unit:%s' % unit],
-                           budget_s=2400, crosscheck_every=500,
-                           bounds='scope: top-level variable + %d local variable(s) of symbolic type (5 pool types) and finality, '
-                                  'optional nested function scope (java: lambda capture flag symbolic); every RNG outcome' % nv,
-                           outside=U.OUT))
+                           budget_s=2400, crosscheck_every=500, bounds=U.unit_bounds(extra), outside=U.OUT))
     out.append(Job('identifiers-unique', h_unique, {}, serial=True, functions=[utils.RandomUtils.word],
                    require_events=['unique'], bounds='4 draws from a 5-word pool, every choice', outside=U.OUT))
     for lang in U.LANGS:
